@@ -114,7 +114,7 @@ def history(rng, mode=None, cfg=None, state=None, nops=None, family="mixed"):
             ops.append({"op": "remFact", "loc": loc, "id": rng.choice(FACT_IDS if plain else FACT_IDS + RULE_IDS)})
         elif x < 0.68 and not plain:
             ops.append({"op": "enableRule", "loc": loc, "id": rid(loc), "enable": rng.random() < 0.4})
-        elif x < 0.72 and not (plain and state == "linear"):
+        elif x < 0.72:
             ops.append({"op": "clear", "loc": loc})
         elif x < 0.90:
             if scheduled and rng.random() < 0.85:
